@@ -180,12 +180,20 @@ impl<C: CrcCalculator> Encapsulator<C> {
     }
 
     pub fn enable_re_use_label(&mut self) {
+        // the last label is not tracked while re-use is disabled: forget it
+        if !self.re_use_activated {
+            self.last_label = None;
+        }
         self.re_use_activated = true;
         self.re_max_consecutive = 0;
         self.re_current_consecutive = 0;
     }
 
     pub fn enable_re_use_label_with_max_consecutive(&mut self, max_consecutive: u8) {
+        // the last label is not tracked while re-use is disabled: forget it
+        if !self.re_use_activated {
+            self.last_label = None;
+        }
         self.re_use_activated = true;
         self.re_max_consecutive = max_consecutive;
         self.re_current_consecutive = 0;
